@@ -11,7 +11,7 @@ from ..core import SubCheck, Violation, cut, require
 from ..oracles import tables as otab
 from ..oracles.geometry import R_EARTH
 from ..rng_script import ScriptExhausted, scripted
-from ..strategies import bfloat, block_edge_sizes, log_uniform, near, ulp_step, unit_closed
+from ..strategies import LAYOUTS, as_layout, same_values, bfloat, block_edge_sizes, log_uniform, near, ulp_step, unit_closed
 from .c04 import BETA_MAX, BETA_MIN, B_NODES, log_e_st, version_st
 
 PROPERTY_ID = "C07"
@@ -124,7 +124,7 @@ def body_chain(case):
     return labels
 
 
-def _check_decay(eas, beta, tauBeta, tauLorentz, u):
+def _check_decay(eas, beta, tauBeta, tauLorentz, u, layout=None):
     n = len(beta)
     snap = [a.tobytes() for a in (beta, tauBeta, tauLorentz, u)]
     with cut("EAS.altDec(explicit u)"):
@@ -151,6 +151,19 @@ def _check_decay(eas, beta, tauBeta, tauLorentz, u):
     with cut("EAS.altDec(second call)"):
         alt2, len2 = [np.asarray(x, dtype=np.float64) for x in eas.altDec(beta, tauBeta, tauLorentz, u)]
     require(alt2.tobytes() == alt.tobytes() and len2.tobytes() == length.tobytes(), "a second altDec call with the same arrays gives different results")
+    # the same events in another memory representation (non-native byte order as astropy returns it for columns read
+    # from a results file, 2-D with permuted axes, read-only, strided views): same decay points (to the last places: numpy picks its loops by stride)
+    if layout:
+        forms = [as_layout(a, layout) for a in (beta, tauBeta, tauLorentz, u)]
+        if forms[0] is not None:
+            with cut(f"EAS.altDec({layout} inputs of shape {forms[0][0].shape})"):
+                altL, lenL = [np.asarray(x) for x in eas.altDec(*[f[0] for f in forms])]
+            back = forms[0][1]
+            require(altL.shape == forms[0][0].shape and lenL.shape == forms[0][0].shape, f"altDec returns shapes {altL.shape}, {lenL.shape} for {layout} inputs of shape {forms[0][0].shape}")
+            require(
+                same_values(back(altL), alt) and same_values(back(lenL), length),
+                f"{layout} inputs give other decay points than plain arrays of the same values: lengths {np.ravel(back(lenL))[:3].tolist()} instead of {length[:3].tolist()}",
+            )
     # internal generator == explicit numbers
     c = float(u[0])
     with scripted(np.full(n + 4, c)):
@@ -180,8 +193,10 @@ def body_decay(case):
     u = np.array([e[2] for e in ev], dtype=np.float64)
     tb = np.sqrt(1.0 - 1.0 / gamma**2)
     eas = EAS(_config())
-    _check_decay(eas, beta, tb, gamma, u)
+    _check_decay(eas, beta, tb, gamma, u, layout=case.get("layout"))
     labels = set()
+    if case.get("layout"):
+        labels.add("layout_" + case["layout"])
     if np.any((u >= 1 - 1e-12) | (u <= 1e-12)):
         labels.add("u_end")
     if np.any(beta == 0.0) or np.any(beta == BETA_MAX):
@@ -311,7 +326,7 @@ SUBCHECKS = [
     ),
     SubCheck(
         "decay",
-        st.fixed_dictionaries({"events": st.lists(st.tuples(gamma_st, beta_em, u_dec).map(list), min_size=1, max_size=48)}),
+        st.fixed_dictionaries({"events": st.lists(st.tuples(gamma_st, beta_em, u_dec).map(list), min_size=1, max_size=48), "layout": st.sampled_from([None] + LAYOUTS)}),
         body_decay,
         _nt,
         {"quick": 800, "thorough": 40000},
